@@ -37,7 +37,7 @@ var propAssume = map[string][]string{
 	"C17": {"html/template.Execute has no contract: bounded run only"},
 }
 
-func propertyExplanation(prop string) string { return propExplain[prop] }
+func propertyExplanation(prop string) string   { return propExplain[prop] }
 func propertyAssumptions(prop string) []string { return propAssume[prop] }
 
 // cmdReplay re-runs the harness for a stored replay file.
